@@ -2,46 +2,65 @@
 (***************************************************************************)
 (* The bounded graph family of C10 and the load machine.                    *)
 (*                                                                          *)
-(* Family: bipartite incidence patterns of k entry points over n shared     *)
-(* modules (module j is imported by the entry points in the non-empty set   *)
-(* masks[j], a bit mask; patterns up to the order of the modules), each     *)
-(* decorated by a feature variant: side-effect-only shared modules, module  *)
-(* -> module imports and re-exports across the future chunk boundary,       *)
-(* re-export-only entry points, dynamic import() of a non-entry module, of  *)
-(* a module nobody imports statically, of an entry point (from a shared     *)
-(* module and from an entry point), entry points importing / re-exporting   *)
-(* entry points.  Every module declares the same top-level names (id,       *)
-(* helper, v, c, bump): equal names meet in every chunk.                    *)
+(* Family, three parts:                                                     *)
+(*  - incidence: bipartite incidence patterns of k entry points over n      *)
+(*    shared modules (module j is imported by the entry points in the       *)
+(*    non-empty set masks[j], a bit mask; patterns up to the order of the   *)
+(*    modules), each decorated by a feature variant: side-effect-only       *)
+(*    shared modules, module -> module imports and re-exports across the    *)
+(*    future chunk boundary, re-export-only entry points, dynamic import()  *)
+(*    of a non-entry module, of a module nobody imports statically, of an   *)
+(*    entry point (from a shared module and from an entry point), entry     *)
+(*    points importing / re-exporting entry points; and by a naming: every  *)
+(*    module declares the top-level names id, helper, v, c, bump, each      *)
+(*    module with the suffix "", "2" or "3" (equal names meet in every      *)
+(*    chunk, and names that look like the collision renamers' own output).  *)
+(*  - re-export chains (ChainFamily): an entry point re-exports (or its     *)
+(*    code import()s a barrel that re-exports) the bindings of an origin    *)
+(*    module through 1..3 re-export statements of every kind (export *,     *)
+(*    export {x} from, export {x as y} from, import + export, export * as   *)
+(*    ns), the origin living in a shared chunk, in the entry point's own    *)
+(*    chunk or being the other entry point, with and without a default      *)
+(*    export, used or not by the entry point's own code.                    *)
+(*  - name collisions (NameFamily): all modules in one shared chunk that    *)
+(*    exports every binding, in every naming.                               *)
 (*                                                                          *)
-(* Init chooses a graph G, computes L == Compute(G) (Link.tla) and, when    *)
-(* Export is TRUE, prints the CASE record: the graph, the expected chunking *)
-(* and the expected observations.  The machine then loads the user entry    *)
-(* points in any subset and order into one registry (LoadEntry) and fires   *)
-(* pending dynamic imports in any order (FireDyn), in two semantics in lock *)
-(* step: the ES semantics of the source graph and the evaluation of the     *)
-(* computed chunk graph.                                                    *)
+(* Init chooses a graph G; Setup computes L == Compute(G) (Link.tla) and,   *)
+(* when Export is TRUE, prints the CASE record: the graph, the resolved     *)
+(* export table (namespace) of every file, the expected chunking with the   *)
+(* alias tables and the expected observations.  The machine then loads the  *)
+(* user entry points in any subset and order into one registry (LoadEntry)  *)
+(* and fires pending dynamic imports in any order (FireDyn), in two         *)
+(* semantics in lock step: the ES semantics of the source graph and the     *)
+(* evaluation of the computed chunk graph.                                  *)
 (***************************************************************************)
 EXTENDS Link, Json
 
 CONSTANTS Shapes,    \* set of <<k, n>>
           Variants,  \* set of variant names
           Export,    \* print CASE records
-          Pick,      \* 0 = every variant of every pattern; n > 0 = a slice of two variants per pattern chosen by n
-          Half       \* 0 = every pattern; 1, 2 = one half of the patterns (to spread a shape over two TLC runs)
+          Pick,      \* 0 = every variant of every pattern; n > 0 = a slice of one or two variants per pattern chosen by n
+          PickTwo,   \* two variants per pattern in the slice
+          Half,      \* 0 = every pattern; 1, 2 = one half of the patterns (to spread a shape over two TLC runs)
+          ChainPick, \* the re-export chain family: 9999 = none, 0 = all of it, n > 0 = the slice (1 of ChainDiv) chosen by n
+          ChainDiv,
+          NamePick   \* the name-collision family: 9999 = none, 0 = all of it, n > 0 = k = 2 over 3 modules in every
+                     \* naming and a slice (1 of 8) of the rest chosen by n
 
-VARIABLES label, g, L, designFailing,
+VARIABLES label, g, meta, phase, L, designFailing,
           loaded,   \* sequence of user entry points loaded so far
           fired,    \* dynamic import targets already loaded
           evSrc,    \* modules evaluated, ES semantics of the source graph
           evCh,     \* chunks evaluated
           runs,     \* file -> number of times its body ran (chunk semantics)
           bad       \* a body read a binding of a file whose body had not run
-vars == <<label, g, L, designFailing, loaded, fired, evSrc, evCh, runs, bad>>
+vars == <<label, g, meta, phase, L, designFailing, loaded, fired, evSrc, evCh, runs, bad>>
 
 ShapesTiny     == {<<2, 1>>, <<2, 2>>}
 ShapesQuick    == {<<2, 1>>, <<2, 2>>, <<2, 3>>, <<2, 4>>, <<3, 1>>, <<3, 2>>, <<3, 3>>}
 ShapesThorough == ShapesQuick \cup {<<3, 4>>}
 \* slices of the family, one TLC run each (initial states are computed by one thread)
+ShapesNone == {}
 ShapesQuickA == {<<3, 3>>}
 ShapesQuickB == ShapesQuick \ ShapesQuickA
 S21 == {<<2, 1>>}
@@ -63,7 +82,8 @@ Masks(k, n) == {s \in [1..n -> 1..(2 ^ k - 1)] : \A i \in 1..(n - 1) : s[i] <= s
 EntryName(i) == "e" \o ToString(i)
 ModName(j) == "m" \o ToString(j)
 MkFile(name, imports, reexp, dyn, exports) ==
-  [name |-> name, imports |-> imports, reexp |-> reexp, dyn |-> dyn, exports |-> exports]
+  [name |-> name, imports |-> imports, reexp |-> reexp, dyn |-> dyn, exports |-> exports,
+   sfx |-> "", dflt |-> FALSE, rx |-> <<>>]
 Bind(t) == [to |-> t, bind |-> TRUE]
 
 Base(k, n, masks) ==
@@ -111,6 +131,87 @@ Apply(v, G, k, n) ==
     [] v = "combo1"    -> EntryRe(DynFresh(Side1(G, k, n), k, n), k, n)
     [] v = "combo2"    -> EntEnt(DynMod(ChainRe(G, k, n), k, n), k, n)
 
+-----------------------------------------------------------------------------
+(* top-level name families: the names of module j get the suffix chosen by   *)
+(* digit j of `code` in base 3: "" (equal names in every module), "2", "3"   *)
+(* (names of the form the collision renamers generate themselves)            *)
+SfxOf(d) == CASE d = 0 -> "" [] d = 1 -> "2" [] OTHER -> "3"
+Styled(G, k, code) ==
+  [G EXCEPT !.files = [f \in DOMAIN G.files |->
+      IF f <= k THEN G.files[f] ELSE [G.files[f] EXCEPT !.sfx = SfxOf((code \div (3 ^ (f - k - 1))) % 3)]]]
+
+-----------------------------------------------------------------------------
+(* the re-export chain family: e1 re-exports the bindings of an origin       *)
+(* module through a chain of 1..3 re-export statements (0..2 intermediate    *)
+(* barrel files r1, r2), every statement of any kind.  The origin lives in   *)
+(* a shared chunk (e2 uses it too), in e1's own chunk, or is the other entry *)
+(* point; e1's own code uses the bindings or not; the barrels are private to *)
+(* e1 or also reached by e2; the origin has suffixed names and a default     *)
+(* export or not; e1 declares bindings of its own (which shadow `export *`)  *)
+(* or not.  m2 is a bystander both entry points use.                         *)
+ChainKinds == {"star", "named", "rename", "imex", "ns"}
+Main3 == {"star", "named", "imex"}
+KindSeqs ==
+  {<<a>> : a \in ChainKinds} \cup {<<a, b>> : a \in ChainKinds, b \in ChainKinds} \cup
+  {<<a, b, c>> : a \in Main3, b \in Main3, c \in Main3} \cup
+  UNION {{<<x, "star", "star">>, <<"star", x, "star">>, <<"star", "star", x>>, <<x, "named", "imex">>, <<"imex", x, "named">>}
+           : x \in {"ns", "rename"}}
+Places == {"shared", "own", "entry"}
+\* origin variants: a = plain names, no default, e1 declares nothing; b = suffix 2, default export, e1 declares
+\* v, c, bump; c = plain names, default export, e1 declares v, c, bump (legal only under star / ns / rename)
+OVariants == {"a", "b", "c"}
+\* dyn: e1 does not re-export the chain but import()s its first barrel (ks[1] is not used: star only), which
+\* makes the barrel an entry point whose exports arrive through the rest of the chain
+ChainParams ==
+  {p \in [ks : KindSeqs, place : Places, used : BOOLEAN, mid : BOOLEAN, ov : OVariants, dyn : BOOLEAN] :
+     /\ (p.mid => Len(p.ks) >= 2 /\ p.place # "entry")
+     /\ (p.ov = "c" => p.ks[1] \in {"star", "ns", "rename"} /\ ~p.used)
+     /\ (p.dyn => Len(p.ks) >= 2 /\ p.ks[1] = "star" /\ ~p.used /\ ~p.mid /\ p.ov # "c")}
+ChainGraph(p) ==
+  LET d      == Len(p.ks) - 1                     \* barrels
+      origin == IF p.place = "entry" THEN 2 ELSE 3
+      m2     == 4
+      bar(i) == 4 + i
+      hop(i) == IF i > d THEN origin ELSE bar(i)  \* the file the i-th barrel is (i = d + 1: the origin)
+      e1     == [MkFile("e1", (IF p.used THEN <<Bind(hop(1))>> ELSE <<>>) \o <<Bind(m2)>>, <<>>, <<>>, p.ov # "a")
+                   EXCEPT !.rx = IF p.dyn THEN <<>> ELSE <<[to |-> hop(1), kind |-> p.ks[1]]>>,
+                          !.dyn = IF p.dyn THEN <<hop(1)>> ELSE <<>>]
+      e2     == MkFile("e2", (IF p.place = "shared" THEN <<Bind(3)>> ELSE <<>>) \o <<Bind(m2)>> \o
+                             (IF p.mid THEN <<[to |-> bar(1), bind |-> FALSE]>> ELSE <<>>), <<>>, <<>>, TRUE)
+      o      == [MkFile("m1", <<>>, <<>>, <<>>, TRUE) EXCEPT !.sfx = IF p.ov = "b" THEN "2" ELSE "", !.dflt = p.ov # "a"]
+      e2o    == IF p.place = "entry" THEN [e2 EXCEPT !.sfx = IF p.ov = "b" THEN "2" ELSE "", !.dflt = p.ov # "a"] ELSE e2
+      base   == <<e1, e2o, o, MkFile("m2", <<>>, <<>>, <<>>, TRUE)>>
+      bars   == [i \in 1..d |-> [MkFile("r" \o ToString(i), <<>>, <<>>, <<>>, FALSE)
+                                    EXCEPT !.rx = <<[to |-> hop(i + 1), kind |-> p.ks[i + 1]]>>]]
+  IN [files |-> base \o bars, entries |-> <<1, 2>>, splitting |-> TRUE]
+RECURSIVE JoinStrs(_, _)
+JoinStrs(s, i) == IF i > Len(s) THEN "" ELSE (IF i > 1 THEN "-" ELSE "") \o s[i] \o JoinStrs(s, i + 1)
+ChainLabel(p) == "rx:" \o p.place \o ":" \o JoinStrs(p.ks, 1) \o ":" \o p.ov \o
+                 (IF p.used THEN ":used" ELSE ":unused") \o (IF p.mid THEN ":mid" ELSE "") \o (IF p.dyn THEN ":dyn" ELSE "")
+KindIx(x) == CASE x = "star" -> 1 [] x = "named" -> 2 [] x = "rename" -> 3 [] x = "imex" -> 4 [] OTHER -> 5
+RECURSIVE KsHash(_, _)
+KsHash(ks, i) == IF i > Len(ks) THEN 0 ELSE (2 * i + 1) * KindIx(ks[i]) + KsHash(ks, i + 1)
+ChainHash(p) == KsHash(p.ks, 1) + (CASE p.place = "shared" -> 0 [] p.place = "own" -> 5 [] OTHER -> 11) +
+                (IF p.used THEN 3 ELSE 0) + (IF p.mid THEN 7 ELSE 0) + (IF p.dyn THEN 9 ELSE 0) + (CASE p.ov = "a" -> 0 [] p.ov = "b" -> 13 [] OTHER -> 17)
+ChainFamily ==
+  IF ChainPick = 9999 THEN {}
+  ELSE {[label |-> ChainLabel(p), k |-> 2, masks |-> <<>>, variant |-> "rxchain", graph |-> ChainGraph(p)]
+          : p \in {q \in ChainParams : /\ (ChainPick = 0 \/ (ChainHash(q) + ChainPick) % ChainDiv = 0)
+                                       /\ (Half = 0 \/ ((ChainHash(q) \div ChainDiv) % 2) + 1 = Half)}}
+
+(* the name-collision family: k entry points that all use all of n modules   *)
+(* (one shared chunk exporting every binding), in every naming               *)
+NameShapes == {<<2, 3>>, <<2, 4>>, <<3, 3>>}
+NameFamily ==
+  IF NamePick = 9999 THEN {}
+  ELSE UNION {{[label |-> "names:k" \o ToString(sh[1]) \o "n" \o ToString(sh[2]) \o ":" \o ToString(code), k |-> sh[1],
+                 masks |-> [j \in 1..sh[2] |-> 2 ^ sh[1] - 1], variant |-> "names",
+                 graph |-> Styled(Base(sh[1], sh[2], [j \in 1..sh[2] |-> 2 ^ sh[1] - 1]), sh[1], code)]
+                  : code \in {c \in 1..(3 ^ sh[2] - 1) :
+                                /\ (NamePick = 0 \/ sh = <<2, 3>> \/ (c + NamePick) % 8 = 0)
+                                /\ (Half = 0 \/ (c % 2) + 1 = Half)}}
+                : sh \in NameShapes}
+
 RECURSIVE JoinInts(_, _)
 JoinInts(s, i) == IF i > Len(s) THEN "" ELSE (IF i > 1 THEN "." ELSE "") \o ToString(s[i]) \o JoinInts(s, i + 1)
 LabelOf(k, masks, v) == "k" \o ToString(k) \o ":" \o JoinInts(masks, 1) \o ":" \o v
@@ -124,30 +225,50 @@ Selected(k, m, v) ==
   \/ Pick = 0
   \/ LET h == 5 * k + MaskHash(m, 1) + Pick
          nv == Len(VariantSeq)
-     IN (VIndex(v) - 1) \in {h % nv, (3 * h + 7) % nv}
+     IN (VIndex(v) - 1) \in ({h % nv} \cup (IF PickTwo THEN {(3 * h + 7) % nv} ELSE {}))
 
 InHalf(m) == Half = 0 \/ (MaskHash(m, 1) % 2) + 1 = Half
 
-Family ==
-  UNION {UNION {{[label |-> LabelOf(sh[1], m, v), k |-> sh[1], masks |-> m, variant |-> v,
-                  graph |-> Apply(v, Base(sh[1], sh[2], m), sh[1], sh[2])]
+\* every graph of the incidence family gets one naming: equal names for a third of them
+StyleCode(k, n, m, v) ==
+  LET h == 7 * MaskHash(m, 1) + 13 * VIndex(v) + 3 * k + Pick
+  IN IF h % 3 = 0 THEN 0 ELSE (h \div 3) % (3 ^ n)
+StyleLabel(c) == IF c = 0 THEN "" ELSE ":s" \o ToString(c)
+IncFamily ==
+  UNION {UNION {{[label |-> LabelOf(sh[1], m, v) \o StyleLabel(StyleCode(sh[1], sh[2], m, v)), k |-> sh[1], masks |-> m, variant |-> v,
+                  graph |-> Styled(Apply(v, Base(sh[1], sh[2], m), sh[1], sh[2]), sh[1], StyleCode(sh[1], sh[2], m, v))]
                    : v \in {w \in Variants : (sh[2] >= 2 \/ w \notin NeedsTwo) /\ Selected(sh[1], m, w)}}
                  : m \in {m2 \in Masks(sh[1], sh[2]) : InHalf(m2)}}
            : sh \in Shapes}
+Family == IncFamily \cup ChainFamily \cup NameFamily
 
 -----------------------------------------------------------------------------
 (* the observations the specification predicts for a graph *)
-RECURSIVE BindTargetsFrom(_, _, _)
-\* the files whose bindings f reads and bumps at top level, in source order
-BindTargetsFrom(G, f, i) ==
+\* What the body of f reads through its binding imports, in source order: for every import with bind, the
+\* binding triples of the target's export table (by declaring file), then its default exports, then its
+\* namespace exports.  A read is [via, kind, file, alias, calias, balias]: the names are those the target exports.
+TripleReads(G, t) ==
+  LET T  == TLCEval(TableOf(G, t))
+      vs == {x \in T : x.kind = "v"}
+      \* the c and bump entries that travel with a v entry: same file, same tail
+      mate(x, k) == CHOOSE y \in T : y.kind = k /\ y.file = x.file /\ y.tail = x.tail
+      one(x) == [via |-> t, kind |-> "triple", file |-> x.file, alias |-> x.alias, calias |-> mate(x, "c").alias, balias |-> mate(x, "bump").alias]
+      RECURSIVE ByFile(_)
+      ByFile(fs) == IF fs = <<>> THEN <<>> ELSE [i \in 1..Cardinality({x \in vs : x.file = Head(fs)}) |->
+                                                    one(AnySeq({x \in vs : x.file = Head(fs)})[i])] \o ByFile(Tail(fs))
+  IN ByFile(SortInts({x.file : x \in vs}))
+SingleReads(G, t, k) ==
+  LET xs == AnySeq({x \in TableOf(G, t) : x.kind = k})
+  IN [i \in 1..Len(xs) |-> [via |-> t, kind |-> k, file |-> xs[i].file, alias |-> xs[i].alias, calias |-> "", balias |-> ""]]
+RECURSIVE ReadsFrom(_, _, _)
+ReadsFrom(G, f, i) ==
   IF i > Len(G.files[f].imports) THEN <<>>
   ELSE LET imp == G.files[f].imports[i]
-           here == IF imp.bind
-                   THEN (IF G.files[imp.to].exports THEN <<imp.to>> ELSE <<>>) \o
-                        SelectSeq(G.files[imp.to].reexp, LAMBDA t : G.files[t].exports)
-                   ELSE <<>>
-       IN here \o BindTargetsFrom(G, f, i + 1)
-BindTargets(G, f) == BindTargetsFrom(G, f, 1)
+       IN (IF imp.bind THEN TripleReads(G, imp.to) \o SingleReads(G, imp.to, "default") \o SingleReads(G, imp.to, "ns") ELSE <<>>)
+          \o ReadsFrom(G, f, i + 1)
+Reads(G, f) == ReadsFrom(G, f, 1)
+\* the files whose bindings f reads and bumps at top level, in source order
+BindTargets(G, f) == LET r == SelectSeq(Reads(G, f), LAMBDA x : x.kind = "triple") IN [i \in 1..Len(r) |-> r[i].file]
 
 \* value of `v` of a file: its id plus twice the own `v` of the bound imports (static imports are acyclic)
 RECURSIVE Val(_, _), SumVals(_, _, _)
@@ -156,39 +277,62 @@ SumVals(G, f, i) ==
   ELSE LET imp == G.files[f].imports[i]
        IN (IF imp.bind /\ G.files[imp.to].exports THEN Val(G, imp.to) ELSE 0) + SumVals(G, f, i + 1)
 Val(G, f) == f + 2 * SumVals(G, f, 1)
+\* value of the default export of a file
+DVal(G, f) == 1000 * f
+\* number of names in the namespace of a file
+NKeys(G, f) == Cardinality({x.alias : x \in TableOf(G, f)})
 
 Ev(G, kind, t, val) == <<kind, G.files[t].name, val>>
-RECURSIVE ReadBumps(_, _)
-ReadBumps(G, ts) == IF ts = <<>> THEN <<>>
-                    ELSE <<Ev(G, "read", Head(ts), Val(G, Head(ts))), Ev(G, "bump", Head(ts), 1)>> \o ReadBumps(G, Tail(ts))
+RECURSIVE ReadEffects(_, _)
+ReadEffects(G, rs) ==
+  IF rs = <<>> THEN <<>>
+  ELSE LET r == Head(rs)
+       IN (CASE r.kind = "triple"  -> <<Ev(G, "read", r.file, Val(G, r.file)), Ev(G, "bump", r.file, 1)>>
+             [] r.kind = "default" -> <<Ev(G, "dflt", r.file, DVal(G, r.file))>>
+             [] OTHER              -> <<Ev(G, "ns", r.file, NKeys(G, r.file))>>) \o ReadEffects(G, Tail(rs))
 \* the synchronous effects of the body of f, in order
-Effects(G, f) ==
+EffectsWith(G, f, rs) ==
   <<Ev(G, "start", f, 0), Ev(G, "helper", f, f)>> \o
   (IF G.files[f].exports THEN <<Ev(G, "own", f, Val(G, f))>> ELSE <<>>) \o
-  ReadBumps(G, BindTargets(G, f)) \o
+  ReadEffects(G, rs) \o
   <<Ev(G, "end", f, 0)>>
+Effects(G, f) == EffectsWith(G, f, Reads(G, f))
 \* the effects of its dynamic imports (after the body, in any order)
-AsyncEffects(G, f) ==
-  [i \in 1..Len(G.files[f].dyn) |->
-     LET d == G.files[f].dyn[i] IN Ev(G, "dyn", d, IF G.files[d].exports THEN Val(G, d) ELSE 0 - 1)]
+\* (the importer reads `v` \o sfx of the namespace it receives, if there is such a name, and counts its names)
+DynVal(G, d) ==
+  LET xs == {x \in TableOf(G, d) : x.kind = "v" /\ x.alias = "v" \o G.files[d].sfx}
+  IN IF xs = {} THEN 0 - 1 ELSE Val(G, (CHOOSE x \in xs : TRUE).file)
+RECURSIVE AsyncFrom(_, _, _)
+AsyncFrom(G, f, i) ==
+  IF i > Len(G.files[f].dyn) THEN <<>>
+  ELSE LET d == G.files[f].dyn[i]
+       IN <<Ev(G, "dyn", d, DynVal(G, d)), Ev(G, "dynkeys", d, NKeys(G, d))>> \o AsyncFrom(G, f, i + 1)
+AsyncEffects(G, f) == AsyncFrom(G, f, 1)
 
 Names(G, S) == {G.files[f].name : f \in S}
 IdOf(G, nm) == CHOOSE f \in FileIds(G) : G.files[f].name = nm
 \* loading a set of user entry points to quiescence (all dynamic imports fired)
 LoadedBy(G, S) == Reach(AllChildren(G), SortInts(S))
 \* value of `c` of t: every loaded module bumps it once per binding path at top level
-Counter(G, ld, t) == Cardinality({p \in UNION {{<<m, i>> : i \in 1..Len(BindTargets(G, m))} : m \in ld} : BindTargets(G, p[1])[p[2]] = t})
+CounterWith(bt, ld, t) == Cardinality({p \in UNION {{<<m, i>> : i \in 1..Len(bt[m])} : m \in ld} : bt[p[1]][p[2]] = t})
+Counter(G, ld, t) == CounterWith([m \in FileIds(G) |-> BindTargets(G, m)], ld, t)
 
 CaseRec(lab, k, masks, variant, G, LL) ==
   LET ids == FileIds(G)
       nms == Names(G, ids)
+      nm(f) == G.files[f].name
+      rd  == TLCEval([f \in ids |-> Reads(G, f)])
+      bt  == TLCEval([f \in ids |-> LET r == SelectSeq(rd[f], LAMBDA x : x.kind = "triple") IN [i \in 1..Len(r) |-> r[i].file]])
+      tab == TLCEval([f \in ids |-> TableOf(G, f)])
   IN [ spec    |-> "LinkGen",
        label   |-> lab, k |-> k, masks |-> masks, variant |-> variant,
        files   |-> [f \in ids |->
                       [ name |-> G.files[f].name, base |-> f, exports |-> G.files[f].exports,
+                        sfx |-> G.files[f].sfx, dflt |-> G.files[f].dflt,
                         imports |-> [i \in DOMAIN G.files[f].imports |->
                                        [to |-> G.files[G.files[f].imports[i].to].name, bind |-> G.files[f].imports[i].bind]],
                         reexp |-> [i \in DOMAIN G.files[f].reexp |-> G.files[G.files[f].reexp[i]].name],
+                        rx    |-> [i \in DOMAIN G.files[f].rx |-> [to |-> nm(G.files[f].rx[i].to), kind |-> G.files[f].rx[i].kind]],
                         dyn   |-> [i \in DOMAIN G.files[f].dyn |-> G.files[G.files[f].dyn[i]].name] ]],
        entries |-> [i \in DOMAIN G.entries |-> G.files[G.entries[i]].name],
        expect  |->
@@ -198,34 +342,52 @@ CaseRec(lab, k, masks, variant, G, LL) ==
                           files |-> Names(G, LL.chunks[c].files),
                           entry |-> IF LL.chunks[c].isEntry THEN G.files[LL.chunks[c].entry].name ELSE "",
                           static  |-> {Names(G, LL.chunks[d].bits) : d \in StaticImports(LL, c)},
-                          dynamic |-> {Names(G, LL.chunks[d].bits) : d \in DynamicImports(LL, c)} ]
+                          dynamic |-> {Names(G, LL.chunks[d].bits) : d \in DynamicImports(LL, c)},
+                          exports |-> {[alias |-> x.alias, file |-> nm(x.file), name |-> x.name] : x \in LL.chunks[c].exports} ]
                          : c \in ChunkIds(LL)},
            shared  |-> Cardinality({c \in ChunkIds(LL) : ~LL.chunks[c].isEntry}),
-           val     |-> [nm \in nms |-> Val(G, IdOf(G, nm))],
-           effects |-> [nm \in nms |-> Effects(G, IdOf(G, nm))],
-           async   |-> [nm \in nms |-> AsyncEffects(G, IdOf(G, nm))],
-           binds   |-> [nm \in nms |-> [i \in DOMAIN BindTargets(G, IdOf(G, nm)) |-> G.files[BindTargets(G, IdOf(G, nm))[i]].name]],
-           exports |-> [nm \in Names(G, UserEntries(G)) |->
-                          {[alias |-> x.alias, file |-> G.files[x.file].name, name |-> x.name] : x \in ExportsOf(G, IdOf(G, nm))}],
+           val     |-> [n \in nms |-> Val(G, IdOf(G, n))],
+           dval    |-> [n \in nms |-> DVal(G, IdOf(G, n))],
+           effects |-> [n \in nms |-> EffectsWith(G, IdOf(G, n), rd[IdOf(G, n)])],
+           async   |-> [n \in nms |-> AsyncEffects(G, IdOf(G, n))],
+           reads   |-> [n \in nms |-> LET r == rd[IdOf(G, n)]
+                                       IN [i \in DOMAIN r |-> [via |-> nm(r[i].via), kind |-> r[i].kind, file |-> nm(r[i].file),
+                                                                alias |-> r[i].alias, calias |-> r[i].calias, balias |-> r[i].balias]]],
+           \* the resolved export table (the namespace) of every live file
+           tables  |-> [n \in Names(G, LiveFiles(LL)) |->
+                          {[alias |-> x.alias, file |-> nm(x.file), name |-> x.name, kind |-> x.kind] : x \in tab[IdOf(G, n)]}],
            \* what loading an entry point (user or dynamic) evaluates at once: its static closure
-           closure |-> [nm \in Names(G, LL.entries) |-> Names(G, Reach(SrcChildren(G), <<IdOf(G, nm)>>))],
+           closure |-> [n \in Names(G, LL.entries) |-> Names(G, Reach(SrcChildren(G), <<IdOf(G, n)>>))],
            subsets |-> {[ entries |-> Names(G, S),
                           loaded  |-> Names(G, LoadedBy(G, S)),
-                          c |-> [nm \in Names(G, LoadedBy(G, S)) |-> Counter(G, LoadedBy(G, S), IdOf(G, nm))] ]
+                          c |-> [n \in Names(G, LoadedBy(G, S)) |-> CounterWith(bt, LoadedBy(G, S), IdOf(G, n))] ]
                           : S \in (SUBSET UserEntries(G)) \ {{}}} ] ]
 
 -----------------------------------------------------------------------------
 (* the load machine *)
+\* Init only chooses the graph; Setup links it (Compute) and exports the CASE record.  (TLC evaluates Init with one
+\* thread and without caching LET values; actions are evaluated by every worker, with caching.)
 Init ==
   \E x \in Family :
      /\ label = x.label
      /\ g = x.graph
-     /\ L = Compute(x.graph)
-     /\ designFailing = Failing(L) \cup (IF UsesAreImportedAndInitialised(L) THEN {} ELSE {"UsesAreImportedAndInitialised"})
+     /\ meta = [k |-> x.k, masks |-> x.masks, variant |-> x.variant]
+     /\ phase = "new"
+     /\ L = <<>>
+     /\ designFailing = {}
      /\ loaded = <<>> /\ fired = {} /\ evSrc = {} /\ evCh = {}
      /\ runs = [f \in FileIds(x.graph) |-> 0]
      /\ bad = FALSE
-     /\ (Export => PrintT(<<"CASE", ToJson(CaseRec(x.label, x.k, x.masks, x.variant, x.graph, L))>>))
+
+Setup ==
+  /\ phase = "new"
+  /\ phase' = "linked"
+  /\ LET LL == Compute(g)
+     IN /\ L' = LL
+        /\ designFailing' = Failing(LL) \cup (IF UsesAreImportedAndInitialised(LL) THEN {} ELSE {"UsesAreImportedAndInitialised"})
+                                       \cup (IF \A f \in FileIds(g) : WellFormedFile(g, f) THEN {} ELSE {"WellFormedGraph"})
+        /\ (Export => PrintT(<<"CASE", ToJson(CaseRec(label, meta.k, meta.masks, meta.variant, g, LL))>>))
+  /\ UNCHANGED <<label, g, meta, loaded, fired, evSrc, evCh, runs, bad>>
 
 Count(s, x) == Cardinality({i \in 1..Len(s) : s[i] = x})
 \* load the entry chunk of e (a user entry point or a dynamic import target) in both semantics
@@ -241,19 +403,21 @@ LoadStep(e) ==
                          /\ runs[u.file] = 0 /\ \A j \in 1..(i - 1) : bodies[j] # u.file)
 
 LoadEntry(e) ==
+  /\ phase = "linked"
   /\ e \in UserEntries(g) \ SeqToSet(loaded)
   /\ loaded' = Append(loaded, e)
   /\ LoadStep(e)
-  /\ UNCHANGED <<label, g, L, designFailing, fired>>
+  /\ UNCHANGED <<label, g, meta, phase, L, designFailing, fired>>
 
 Pending == (UNION {DynTargets(g, f) : f \in evSrc}) \ fired
 FireDyn(t) ==
+  /\ phase = "linked"
   /\ t \in Pending
   /\ fired' = fired \cup {t}
   /\ LoadStep(t)
-  /\ UNCHANGED <<label, g, L, designFailing, loaded>>
+  /\ UNCHANGED <<label, g, meta, phase, L, designFailing, loaded>>
 
-Next == (\E e \in UserEntries(g) : LoadEntry(e)) \/ (\E t \in FileIds(g) : FireDyn(t))
+Next == Setup \/ (\E e \in UserEntries(g) : LoadEntry(e)) \/ (\E t \in FileIds(g) : FireDyn(t))
 Spec == Init /\ [][Next]_vars
 
 -----------------------------------------------------------------------------
